@@ -13,7 +13,8 @@ BASELINE = ("cd /repo && /venv/bin/python -m pytest -ra -q -p no:cacheprovider -
 CHECKS = {
     "C15": ("exploration", "DESIGN.md §7 C15",
             "deterministic simulation: simulated reader + chunk-size seam, seeded plans + small systematic grid, naive-scanner oracle",
-            "Seeded search over haystack/needle/chunk-size/start/limit plans executed through a simulated file whose "
+            "Seeded search over haystack/needle/chunk-size/start/limit plans (small alphabets up to 80 bytes, and 8-40 KiB haystacks "
+            "with needles around the multiples of 8192 and of the chunk size) executed through a simulated file whose "
             "chunking the simulator controls, compared with a naive scanner; a systematic grid of all binary haystacks "
             "rides along. Exploration: a clean batch is evidence, not proof.",
             "Trusts CPython bytes.find/slicing in the reference scanner; readers are full-read seekable files."),
@@ -21,15 +22,17 @@ CHECKS = {
 
 CHECKS["C09"] = ("exploration", "DESIGN.md §7 C09",
     "deterministic simulation: seek/read/tell histories on a simulated device vs byte-slice model; detection variants; seeded + systematic op pairs",
-    "Seeded histories (1-24 ops) and all ordered pairs of 22 op classes on one long-lived XorEncodedFile over a simulated "
-    "file, compared step by step with a byte-slice model; detection (from_file) is exercised over stub/marker/size "
-    "variants built by an independent encoder; negatives must raise ValueError.",
+    "Seeded histories (1-24 ops) and all ordered pairs of 23 op classes on one long-lived XorEncodedFile over a simulated "
+    "file (constructed with explicit or default offset, first operation with or without a seek, read() with and without "
+    "argument, arbitrary size fields), compared step by step with a byte-slice model; detection (from_file) is exercised over "
+    "stub/marker/size variants up to the documented search-range limits, built by an independent encoder; negatives must raise ValueError.",
     "Trusts the independent rolling-XOR encoder (anchored: it reproduces the repository's XorEncoded samples) and BytesIO semantics.")
 
 CHECKS["C01"] = ("exploration", "DESIGN.md §7 C01",
     "deterministic simulation: stored payloads read through a simulated device with chunk-size seam; seeded layouts/keys/offsets; reference-scanner oracle",
     "Seeded search over container layouts (raw, PE .data, XorEncoded PE), XOR keys, key lists/all-keys mode, embedding "
-    "offsets biased to chunk boundaries/offset 0/EOF, filler kinds, decoy blocks, entry points and chunk sizes; the "
+    "offsets biased to chunk boundaries/offset 0/EOF, filler kinds, decoy blocks (also blocks visible in the raw view of a "
+    "XorEncoded stage only), entry points and chunk sizes; the "
     "real extractors read the stored image through the simulator's file and the result is compared with an "
     "executable reference scanner and TLV decoder over the same image.",
     "Trusts the independent builder/scanner (anchored to the repository's real samples in selftest anchors); all-keys runs with several candidate leftover keys are discarded as ambiguous.")
@@ -40,23 +43,27 @@ CHECKS["C08"] = ("fault_enumeration", "DESIGN.md §7 C08",
     "of 9 builder base images, plus seeded multi-fault combinations, splices, garbage and the 7 real samples, are pushed "
     "through all 12 untrusted-bytes entry points on a simulated device; outcome must be a documented value or ValueError "
     "within the reader-call budget. Fault enumeration per base image; the set of base images is sampled.",
-    "Termination is judged by reader-call budget and stall detector (a loop doing no I/O would only hit the wall backstop); ValueError is accepted from every entry point.")
+    "Termination is judged by reader-call budget, stall detector (reads at EOF) and cycle detector (same few seek/read operations repeated), also for from_path (open() is rebound to a counting wrapper); a loop doing no I/O would only hit the wall backstop; ValueError is accepted from every entry point.")
 
 CHECKS["C17"] = ("exploration", "DESIGN.md §7 C17",
     "deterministic simulation with storage fault injection: Guardrails payloads from an independent masker on a simulated device; seeded keys/options/positions; bit-rot faults; checksum safety invariant",
     "Seeded search over environmental keys of every length 2-256, guard-option subsets, positions and raw/XorEncoded "
     "containers; fault-free runs must recover configuration, key (mod tiling), guard settings, checksum and offsets; runs "
     "with injected bit flips (settings, key-bearing padding, checksum, marker, guard settings) or a wrong stored checksum are "
-    "judged only by the safety invariant 'configuration reported => checksum matches the stored one'.",
+    "judged only by the safety invariant 'configuration reported => checksum matches the stored one'; 55% of the fault runs "
+    "are two-step histories in one process (genuine image then its corrupted copy, or the reverse) whose second verdict must "
+    "be what it would be alone.",
     "Trusts the independent masker/checksum (anchored to the real Guardrails sample); configurations are zero-padded; default chunk size.")
 
 CHECKS["C07"] = ("exploration", "DESIGN.md §4, §7 C07",
     "deterministic simulation with fault injection: real HttpBeaconClient threads (baton-passed) + reference team server + faulty simulated network + virtual clock + seeded PRNGs; wire tap decoded by C2Http under 4 key variants",
     "Seeded search over beacon configurations, client populations, operator task lists, handler behaviours and fault lists "
     "(message loss, duplication, delay, corruption, HTTP errors, crash/restart, clock jumps, noise). Every message on the "
-    "simulated wire is decoded by the passive decoder under RSA-only / aes_rand / AES+HMAC / AES-no-verify key material and "
-    "compared with ground truth recorded at the source; routing and rejection of unrelated requests are checked; bounded "
-    "liveness after the last fault.",
+    "simulated wire is decoded by the passive decoder under RSA-only / aes_rand / AES+HMAC / AES-no-verify key material - plus "
+    "a keyed observer that sees task responses late and one whose capture starts in mid-session - and "
+    "compared with ground truth recorded at the source; unsolicited task responses and raw multi-callback POSTs carry command / "
+    "callback ids outside the library's tables; restarts may run the same client object again; routing and rejection of "
+    "unrelated requests are checked; bounded liveness after the last fault.",
     "Trusts the independent reference server/codec (anchored to captured Cobalt Strike traffic), PyCryptodome, httpx request building; pcap.py itself is not executed (no tshark), its per-packet driver logic is mirrored.")
 CHECKS["C19"] = ("exploration", "DESIGN.md §4, §7 C19",
     "deterministic simulation with fault injection: long-lived real client sessions with crash/restart, sleep seam observation, reference handler registry, bounded liveness",
@@ -75,7 +82,8 @@ CHECKS["C04"] = ("exploration", "DESIGN.md §7 C04",
     "Trusts the reference codec; the known finding F-C04-1 (uri-append with a non-empty initial URI at the transform level) is reported as KNOWN-FINDING.")
 CHECKS["C05"] = ("fault_enumeration", "DESIGN.md §7 C05",
     "fault enumeration on simulated packets: every single-bit flip and every truncation of ciphertext and signature, wrong/missing HMAC keys, against a reference cipher; framing split; plus sessions with in-flight corruption",
-    "Per packet the whole single-bit and truncation fault space of ciphertext||signature is enumerated and must be rejected "
+    "Per packet (plaintexts up to 80 bytes) the whole single-bit and truncation fault space of ciphertext||signature is enumerated "
+    "(one large packet at a boundary length up to 256 KiB per 30% of the plans gets a sampled fault set) and must be rejected "
     "with ValueError; ciphertext and signature are compared with AES-128-CBC / HMAC-SHA256 computed independently; streams "
     "of 1-5 framed packets and trailing-signature task data must split back exactly; sessions add corruption in flight.",
     "The packet population (plaintexts, keys, IVs) is sampled; trusts PyCryptodome AES and stdlib hmac.")
@@ -98,13 +106,17 @@ CHECKS["C11"] = ("exploration", "DESIGN.md §6, §7 C11",
     "Seeded histories of profile modifications (global options, all block kinds with options, pairs, data-transform, execute "
     "and BeaconGate lists) interleaved with as_dict/properties/as_text/str/reparse reads on one C2Profile; after every read "
     "the dictionary equals a model computed from the plan, from_text(as_text()) has an equal tree, text and dictionary, and "
-    "kwargs-style and call-style construction give equal trees; a parsed-from-text population covers variants.",
+    "kwargs-style and call-style construction give equal trees (values handed over as str or bytes); a parsed-from-text "
+    "population covers variants and escape sequences at the edges of literals.",
     "No clock/network/storage is involved (weakest fit to the technique: the nondeterminism is the caller's operation order); string escaping (C12) is kept out of the domain.")
 CHECKS["C14"] = ("exploration", "DESIGN.md §6, §7 C14",
     "history simulation of one shared object: all ordered pairs of 24 use kinds plus seeded histories vs a never-used twin and a fresh twin per operation; also an invariant in every World S session",
     "All ordered pairs (thorough: triples) of the 24 kinds of use of one BeaconConfig and seeded histories up to 24 operations "
-    "on generated and real configurations: after every operation a deep snapshot equals a never-used twin's and the "
-    "operation's result equals the same operation on a brand-new configuration; mapping mutation raises TypeError.",
+    "on generated HTTP configurations (with unknown setting indices), SMB/TCP pivot configurations and the real samples (extracted "
+    "from the stored payload or built from the bare block, with a companion object over the same bytes): after every operation "
+    "a deep snapshot equals a never-used twin's, every observable part equals what a brand-new object reports when asked first "
+    "(for the samples: what a brand-new PROCESS reports), the operation's result equals the same operation on a brand-new "
+    "configuration, and no mutation path of the settings mappings has an effect.",
     "Results are compared after canonicalisation; PRNG seams reseeded identically for both executions.")
 
 NOT_APPLICABLE = {
